@@ -53,8 +53,9 @@ let () =
           { mode; size; start; bytes }) in
         let nargs = int_of_string toks.(!pos) in
         incr pos;
-        let args = List.init nargs (fun i ->
+        let args = List.filter_map (fun x -> x) (List.init nargs (fun i ->
           let t = toks.(!pos + i) in
+          if t.[0] = 'E' || t.[0] = 'K' then None else Some (   (* driver directives (errno on entry, failing allocation): not arguments *)
           match t.[0] with
           | 'N' -> Z0
           | 'P' -> (match String.split_on_char ':' (String.sub t 1 (String.length t - 1)) with
@@ -63,7 +64,7 @@ let () =
           | 'I' -> z_of_string (String.sub t 1 (String.length t - 1))
           | 'S' -> let v = z_of_string (String.sub t 1 (String.length t - 1)) in
                    (* C passes it as a 64-bit pattern; the models take the signed value *) v
-          | _ -> failwith "bad arg") in
+          | _ -> failwith "bad arg"))) in
         let mem0 (z : z) : z =
           let ad = int_of_z z in
           let r = ref filler in
